@@ -169,8 +169,13 @@ def malformed(rng, n):
             fn = fn.replace('_', rng.choice(('', '__', '-', '_x_')), 1)
         elif r < 0.7:
             fn = fn[:-rng.randint(1, 4)]
-        elif r < 0.8:
+        elif r < 0.74:
             fn = fn + rng.choice(('.gz', '.bak', '_copyright', '.deb', '/'))
+        elif r < 0.8:
+            # the ending replaced by one the property does not list (other Debian artefacts, other compressions)
+            stem = '_'.join(x for x in (case[1], case[2], case[3]) if x is not None)
+            fn = case[0] + stem + rng.choice(('.ddeb', '.buildinfo', '.changes', '.tar.zst', '.orig.tar.zst', '.debian.tar.zstd', '.diff.gz', '.tar.Z',
+                                               '.orig.tar', '_NEWS', '_readme', '.deb.asc', '.dsc.asc', '.orig.tar.gz.asc', '.DEB', '.Dsc', '.tar.GZ'))
         elif r < 0.92:
             # an escape sequence of another layer inside the version part: it is not a version character, so the
             # name must be rejected - a parser that decodes it first would accept
